@@ -307,7 +307,7 @@ impl Resolver<'_> {
                 // yes, this is not a transform, but this is the most appropriate place for it
 
                 let [list] = unpack::<1>(func.args);
-                let list = list.kind.into_tuple().unwrap();
+                let list = into_tuple_items(list, "std.tuple_every")?;
 
                 let mut res = None;
                 for item in list {
@@ -323,7 +323,9 @@ impl Resolver<'_> {
                 // yes, this is not a transform, but this is the most appropriate place for it
 
                 let [func, list] = unpack::<2>(func.args);
-                let list_items = list.kind.into_tuple().unwrap();
+                let list_span = list.span;
+                let list_items = (list.kind.into_tuple())
+                    .map_err(|kind| not_a_tuple(kind, list_span, "std.tuple_map"))?;
 
                 let list_items = list_items
                     .into_iter()
@@ -345,8 +347,8 @@ impl Resolver<'_> {
                 // yes, this is not a transform, but this is the most appropriate place for it
 
                 let [a, b] = unpack::<2>(func.args);
-                let a = a.kind.into_tuple().unwrap();
-                let b = b.kind.into_tuple().unwrap();
+                let a = into_tuple_items(a, "std.tuple_zip")?;
+                let b = into_tuple_items(b, "std.tuple_zip")?;
 
                 let mut res = Vec::new();
                 for (a, b) in std::iter::zip(a, b) {
@@ -360,8 +362,11 @@ impl Resolver<'_> {
                 // yes, this is not a transform, but this is the most appropriate place for it
 
                 let [list] = unpack::<1>(func.args);
-                let list = list.kind.into_tuple().unwrap();
-                let [a, b]: [Expr; 2] = list.try_into().unwrap();
+                let span = list.span;
+                let list = into_tuple_items(list, "std._eq")?;
+                let [a, b]: [Expr; 2] = list.try_into().map_err(|_| {
+                    Error::new_simple("std._eq expects a tuple of two items").with_span(span)
+                })?;
 
                 let res = maybe_binop(Some(a), &["std", "eq"], Some(b)).unwrap();
                 return Ok(res);
@@ -1027,6 +1032,21 @@ impl Lineage {
 
 /// Expects closure's args to be resolved.
 /// Note that named args are before positional args, in order of declaration.
+/// The items of an argument that has to be a tuple.
+fn into_tuple_items(expr: Expr, who: &str) -> Result<Vec<Expr>> {
+    let span = expr.span;
+    (expr.kind.into_tuple()).map_err(|kind| not_a_tuple(kind, span, who))
+}
+
+fn not_a_tuple(found: ExprKind, span: Option<crate::Span>, who: &str) -> Error {
+    Error::new(Reason::Expected {
+        who: Some(who.to_string()),
+        expected: "a tuple".to_string(),
+        found: write_pl(Expr::new(found)),
+    })
+    .with_span(span)
+}
+
 fn unpack<const P: usize>(func_args: Vec<Expr>) -> [Expr; P] {
     func_args.try_into().expect("bad special function cast")
 }
